@@ -20,12 +20,17 @@ fn info(len: usize, ends: u8) -> KindInfo {
 const S_CHUNK: &[u16] = &[M_CHUNK, M_SINGLE | M_LEN];
 const S_BUF: &[u16] = &[M_BUF, M_SINGLE | M_LEN];
 const S_SKIP: &[u16] = &[M_SKIP, M_PULLS, M_SINGLE | M_LEN];
+/// longer free-form histories (thorough tier)
+const S_LONG: &[u16] = &[M_PULLS, M_PULLS | M_LEN | M_SKIP, M_SINGLE | M_CHUNK | M_LEN];
 /// histories in which possibly nothing at all is pulled
 const S_IDLE: &[u16] = &[M_LEN | M_SINGLE, M_LEN | M_CHUNK];
 
 fn wit(m: &Model) {
     kani::cover!(m.w_partial, "W: a chunk was only partly consumed");
     kani::cover!(m.pos == m.len && m.len > 1, "W: exactly exhausted");
+}
+fn wit_some(m: &Model) {
+    kani::cover!(m.pos > 0, "W: something was delivered");
 }
 fn wit_skip(m: &Model) {
     kani::cover!(m.w_after_skip, "W: a pull after skip_to_end happened");
@@ -63,6 +68,14 @@ fn go_cloned(script: &[u16], w: fn(&Model)) {
     let m = run(src.into_con_iter().cloned(), info(len, 0b111), 3, script, take_clone);
     clone_ledger(&data);
     w(&m);
+}
+
+// @verif family=SEQ thorough=C13,C06 timeout=3600 mem=24
+// @bounds kind=Cloned<ConIterOfSlice<Cl>> len<=3; prefix<=3 next(); any pull (single / chunk n<=len+2 / buffered x2); any pull or len query or skip_to_end; single/chunk/len; end in {drop, into_seq_iter all/partly}; clone ledger, source unchanged
+#[kani::proof]
+#[kani::unwind(7)]
+fn cloned_long() {
+    go_cloned(S_LONG, wit_some);
 }
 
 // @verif family=SEQ quick=C13 thorough=C03,C10 timeout=1500 owner=C13
